@@ -274,8 +274,8 @@ pub fn registry() -> Vec<Profile> {
             run: run_c01,
             required: &["accept_header", "accept_query", "tamper[method]", "tamper[path]", "tamper[query]", "tamper[header]", "tamper[body]", "tamper[date]", "tamper[signature]", "tamper[scope]", "tamper[access-key]", "tamper[splice]"],
             rule: "seeded runs of the delivery world: 1-4 clients sign 1-4 requests (both carriers, S3/fold, tokens), each delivery receives 0-2 logical transformations from the full adversarial list (method/path/query/header/body/date/credential/signature/splice), replay, mis-delivery, key rotation at the key store and benign respelling; a case is non-trivial when at least one fault fired; distinct = distinct hash of (transformation kinds, reference verdict, library outcome kind, carrier, node options) per run",
-            quick_runs: 52000,
-            thorough_runs: 624000,
+            quick_runs: 104000,
+            thorough_runs: 1248000,
             real: REAL_COMMON,
             stubs: STUBS_COMMON,
             assumptions: ASSUME_COMMON,
@@ -288,8 +288,8 @@ pub fn registry() -> Vec<Profile> {
             run: run_c02,
             required: &["accept_header", "accept_query", "accept_folded", "accept_s3", "accept_token", "accept_auth_params_in_form_body", "accept_authority_pseudo_header", "accept_absolute_form_target", "t_eq_lower", "t_eq_upper"],
             rule: "fault-free and benign-intermediary runs: reference-signed logical requests over arbitrary bytes in segments/names/values/bodies (repeated and prefix-related names, empty names/values), re-spelled on the wire (hex case, needless escapes, + vs %20, permutation, &&, dot segments, header case/spacing, Authorization parameter order, absolute-form target), server clock anywhere in the window incl. both bounds; non-trivial when benign noise or a benign header edit fired; distinct by shape hash as for C01",
-            quick_runs: 40000,
-            thorough_runs: 480000,
+            quick_runs: 80000,
+            thorough_runs: 960000,
             real: REAL_COMMON,
             stubs: STUBS_COMMON,
             assumptions: ASSUME_COMMON,
@@ -302,8 +302,8 @@ pub fn registry() -> Vec<Profile> {
             run: run_c03,
             required: &["scope_arity", "scope_mismatch", "scope_near_miss_region", "scope_near_miss_service", "provider_query_checked", "misroute", "t_day_rollover"],
             rule: "mis-delivery among 1-3 nodes with near-miss (prefix/suffix/case/empty) regions and services, credential field tampering, arity faults (0,1,4,6 parts, trailing slash), signing around UTC midnight; the key store records every query; non-trivial when a fault fired",
-            quick_runs: 44000,
-            thorough_runs: 528000,
+            quick_runs: 88000,
+            thorough_runs: 1056000,
             real: REAL_COMMON,
             stubs: STUBS_COMMON,
             assumptions: ASSUME_COMMON,
@@ -316,8 +316,8 @@ pub fn registry() -> Vec<Profile> {
             run: run_c04,
             required: &["t_eq_lower", "t_eq_upper", "t_upper_plus_1ns", "t_lower_minus_1ns", "t_subsecond", "refused_expired", "refused_not_yet_valid", "inside_window_reached"],
             rule: "request instant minus server instant drawn boundary-biased (exact bounds, ±1 ns, ±1 ms, ±1 s, uniform in ±20 min, hours/days out) at 16 epochs (midnight, month/year ends, leap days, 1970, years 1/999/9999), client renders its clock in every admissible ISO-8601 form; replays arrive later; non-trivial when the delivery lies outside the window or exactly on/next to a bound",
-            quick_runs: 84000,
-            thorough_runs: 1008000,
+            quick_runs: 168000,
+            thorough_runs: 2016000,
             real: REAL_COMMON,
             stubs: STUBS_COMMON,
             assumptions: ASSUME_COMMON,
@@ -330,8 +330,8 @@ pub fn registry() -> Vec<Profile> {
             run: run_c05,
             required: &["requirement_refusal_expected", "requirements_satisfied_case", "req_vec_impl", "req_slice_impl", "req[inject-required-header]", "req[unsign-required]", "req[unsign-host]", "req[signed-name-case]"],
             rule: "nodes with random requirement sets (always/conditional/prefix, random letter case, built through Slice… or Vec… with add/remove histories); faults: an intermediary injects a covered header, the client under-signs (signature over what it did sign stays correct), host left unsigned, unsigned header edits; non-trivial when a fault fired",
-            quick_runs: 28000,
-            thorough_runs: 336000,
+            quick_runs: 56000,
+            thorough_runs: 672000,
             real: REAL_COMMON,
             stubs: STUBS_COMMON,
             assumptions: ASSUME_COMMON,
@@ -344,8 +344,8 @@ pub fn registry() -> Vec<Profile> {
             run: run_c11,
             required: &["accept_header", "canonical_bytes_compared", "tamper[header]", "benign[hdr-add-new]", "benign[hdr-change-value]"],
             rule: "up to 9 headers with repeated names, values over visible bytes/tabs/high bytes/commas; intermediaries add/remove/modify/reorder/re-space headers; whether an edit is adversarial is computed from the reference signing input; canonical request bytes compared through the `unstable` seam; non-trivial when a header edit fired",
-            quick_runs: 32000,
-            thorough_runs: 384000,
+            quick_runs: 64000,
+            thorough_runs: 768000,
             real: REAL_COMMON,
             stubs: STUBS_COMMON,
             assumptions: ASSUME_COMMON,
@@ -358,8 +358,8 @@ pub fn registry() -> Vec<Profile> {
             run: run_c12,
             required: &["fold_happened", "fold_same_name_both", "fold_body_only", "fold_off_form_body", "fold_bad_utf8", "fold_unknown_charset", "accept_folded"],
             rule: "form world: node folding option × where each parameter travels (URL/body/both, same name in both) × content-type spelling/charset × body tampering × delivery of the same wire request to a node with the other option value; non-trivial when the body is a form or a fault fired",
-            quick_runs: 27000,
-            thorough_runs: 324000,
+            quick_runs: 54000,
+            thorough_runs: 648000,
             real: REAL_COMMON,
             stubs: STUBS_COMMON,
             assumptions: ASSUME_COMMON,
@@ -372,8 +372,8 @@ pub fn registry() -> Vec<Profile> {
             run: run_c14,
             required: &["exec_concurrent_tasks", "prov_pending_ge_2", "defective_request_with_provider_watching", "liveness_checked", "prov_keystore_refusal", "control_twin_compared", "body_transport_failed_first", "prov_err[ExpiredToken]", "prov_err[MissingAuthenticationToken]", "prov_foreign[io::Error]", "prov_foreign[String]"],
             rule: "1-6 concurrent tasks (each a sequence of validations reusing one provider instance; all instances clones of one key store) on the seeded executor; provider readiness/answer pending 0-5 polls with immediate, timer or withheld wake-ups, every SignatureError kind and five foreign error kinds at readiness or answer, key rotation, spurious polls, cancellation at any poll; requests valid or defective at any rule; non-trivial when a provider/executor fault fired; distinct interleavings = distinct hashes of the (task, seam, result) sequence",
-            quick_runs: 23000,
-            thorough_runs: 276000,
+            quick_runs: 46000,
+            thorough_runs: 552000,
             real: REAL_COMMON,
             stubs: STUBS_COMMON,
             assumptions: ASSUME_COMMON,
@@ -386,8 +386,8 @@ pub fn registry() -> Vec<Profile> {
             run: run_c15,
             required: &["accepted_compared", "accepted_folded_compared"],
             rule: "every accepted delivery of the general and form worlds (all methods, versions, header multisets with repeated names, bodies, both carriers, folded or not, 1-3 accounts with distinct principals) compared part by part with what was submitted; non-trivial when the accepted request had repeated headers, a body or was folded",
-            quick_runs: 32000,
-            thorough_runs: 384000,
+            quick_runs: 64000,
+            thorough_runs: 768000,
             real: REAL_COMMON,
             stubs: STUBS_COMMON,
             assumptions: ASSUME_COMMON,
